@@ -82,6 +82,11 @@ Definition sconv_ok (c : bytes * uobs) : bool :=
   uobs_eqb (snd c) (match parse_uint (fst c) with Some v => OV (str_ts_ms v) | None => OErr end).
 Definition check_sconv (cs : list (bytes * uobs)) : list nat := idx_filter sconv_ok cs 0.
 
+(* numeric timestamps in any JSON spelling: ExtractTimeStamp on {"timestamp": <number>} *)
+Definition spell_ok (c : sval * uobs) : bool :=
+  uobs_eqb (snd c) (OV (extract_ts no_ext [(k_timestamp, fst c)] k_timestamp 0)).
+Definition check_spell (cs : list (sval * uobs)) : list nat := idx_filter spell_ok cs 0.
+
 (* ---------- stored log events ---------- *)
 Record lobs := { ob_lo : N; ob_hi : N; ob_ts : N; ob_fields : event }.
 Definition mk_lobs lo hi ts fs : lobs := {| ob_lo := lo; ob_hi := hi; ob_ts := ts; ob_fields := fs |}.
